@@ -828,3 +828,50 @@ pub fn alternation_partner<M: Machine>(w: &World<M>, a: u16) -> Option<u16> {
     }
     best.map(|(_, i)| i)
 }
+
+
+// ------------------------------------------------------------------------------------------
+// C08 on states that lived through a refused call (fault configuration)
+// ------------------------------------------------------------------------------------------
+
+/// "The statistics built on it inherit the bound": whatever a refused call did to a state (kept
+/// the accepted prefix, kept nothing, rolled something back), the sum it carries afterwards must
+/// still lie within the compensated-summation bound of the exact sum of the observations its
+/// count says it holds. `ts` are those observations in the accumulation space. Used for Paired
+/// (accumulation space = differences, mean directly observable).
+pub fn c08_after_refusal<M: Machine>(st: &M::S, ts: &[(f64, f64)], slot: u16, stats: &mut Stats) -> Option<Violation> {
+    if ts.is_empty() || ts.iter().any(|t| !t.0.is_finite() || !t.1.is_finite()) {
+        return None;
+    }
+    let mut agg = crate::exact::Agg::new();
+    for &(t, sq) in ts {
+        agg.push(t, sq);
+    }
+    let sm = agg.summary();
+    let o = M::observe(st, ObsPlan { confs: &[], unguarded: false });
+    let u = M::unit_roundoff();
+    let n = sm.n as f64;
+    let mean = obs_get(&o, What::Mean(0))?.as_f()?;
+    stats.inc("c08_after_refusal_checks");
+    if !(sm.a_f > 0.0) {
+        return None;
+    }
+    let sum = mean * n;
+    if !sum.is_finite() {
+        return Some(Violation::new("C08", "stat-sum-error-bound-after-refused-call", slot, format!("mean {mean:?} of {} finite observations", sm.n)));
+    }
+    let diff = (crate::exact::f64_to_big_checked(sum)? - &sm.s).magnitude().clone();
+    let r = crate::exact::ratio(&diff.into(), &sm.a) / u;
+    let floor = 4.0 * eta::<M>() * n / (u * sm.a_f);
+    let bound = K + 4.0 * n * u + 2.0 + floor;
+    stats.worst("c08_after_refusal_mean_times_n_over_uA", r);
+    if r > bound {
+        return Some(Violation::new(
+            "C08",
+            "stat-sum-error-bound-after-refused-call",
+            slot,
+            format!("|mean*n - exact sum| = {:.3} u*sum|x| > {:.3} over the {} observations the state reports (exact sum {:?}, sum|x| {:?}, state {})", r, bound, sm.n, sm.s_f, sm.a_f, M::fingerprint(st)),
+        ));
+    }
+    None
+}
